@@ -47,6 +47,16 @@ func planSubQueries(opts *Opts, query *sql.Query) (func(ctx context.Context) ([]
 			sqResultCh := make(chan *sqResult)
 			sqResultChs <- sqResultCh
 			go func() {
+				defer func() {
+					// Executing the sub query evaluates the expressions that it
+					// contains, some of which panic on unexpected data. This is our own
+					// goroutine, so fail the sub query rather than the process.
+					p := recover()
+					if p != nil {
+						sqResultCh <- &sqResult{nil, fmt.Errorf("Panic while running sub query %v: %v", sq.SQL, p)}
+					}
+				}()
+
 				var mx sync.Mutex
 				uniques := make(map[interface{}]bool, 0)
 				sqPlan := subQueryPlans[i]
